@@ -169,10 +169,13 @@ Fixpoint bar_loop (lowest : bool) (cs : list cd) (name : string) (idxs : list Z)
   | j :: rest =>
     cur_ <- rbi cs name j ;;
     if is_none NO cur_ then bar_loop lowest cs name rest (k + 1) best distance else
-    let best0 := match best with None => cur_ | Some b => b end in
-    better <- (if lowest then val_gt best0 cur_ else val_lt best0 cur_) ;;
-    if better then bar_loop lowest cs name rest (k + 1) (Some cur_) k
-    else bar_loop lowest cs name rest (k + 1) (Some best0) distance
+    match best with
+    | None => bar_loop lowest cs name rest (k + 1) (Some cur_) k     (* first reading found *)
+    | Some best0 =>
+      better <- (if lowest then val_gt best0 cur_ else val_lt best0 cur_) ;;
+      if better then bar_loop lowest cs name rest (k + 1) (Some cur_) k
+      else bar_loop lowest cs name rest (k + 1) (Some best0) distance
+    end
   end.
 Definition high_low_bar (lowest : bool) (cs : list cd) (name : string) (length index : Z) : res val :=
   match absindex index (zlen cs) with
